@@ -653,7 +653,8 @@ func taskErrorLatched(c *eng.Ctx) {
 			}
 			n++
 			fs := facts.At(st)
-			nonNil := len(facts.Find(fs, "ne", func(_ string, v ssa.Value) bool { return eng.SameValue(v, st.Val) }, eng.DescIs("nil"))) > 0
+			vd := p.Desc(st.Val)
+			nonNil := len(facts.Find(fs, "ne", func(d string, v ssa.Value) bool { return eng.SameValue(v, st.Val) || d == vd }, eng.DescIs("nil"))) > 0
 			switch x := eng.Unwrap(st.Val).(type) {
 			case *ssa.MakeInterface:
 				nonNil = true
